@@ -345,7 +345,7 @@ def main(chk: core.Check) -> int:
     tables = tlock.regenerate(chk)
     chk.extra["lock_table"] = {k: {n: s for n, s in v} for k, v in tables.items()}
     if not getattr(chk, "no_prove", False):
-        chk.prove()
+        chk.prove(["OptunaVerif.Props.C03", "OptunaVerif.Props.C03Cache"])
     quick = chk.tier == "quick"
     try:
         core.ensure_driver()
